@@ -80,6 +80,20 @@ Theorem C06_timeout_returns_error :
 Proof. exact timeout_returns_error. Qed.
 Print Assumptions C06_timeout_returns_error.
 
+(** ... and it needs nobody else: from ANY state in which the call waits, three steps of that call
+    alone (timeout, deferred close(closedCh), deferred unlocks) reach the error return with
+    closedCh closed (so Run can return) and closedLock free (so other Close calls get in) - no
+    step of a handler, a loop, a pump or a handleClose goroutine is required.  In particular a
+    subscriber whose Close() blocks ([HCInSubClose] until the environment's [LSubCloseRet], which
+    may never come) cannot make Close hang. *)
+Theorem C06_timeout_returns_error_alone :
+  forall s c, cp s c = CWait ->
+    exists s', replay s [LTimeout c; LClose c; LClose c] = Some s' /\
+               cp s' c = CRet RErr /\ closedCh s' = true /\ closedLock s' = None /\
+               hc s' = hc s /\ mp s' = mp s /\ lp s' = lp s.
+Proof. exact timeout_alone_returns_error. Qed.
+Print Assumptions C06_timeout_returns_error_alone.
+
 (** every Close call returns - the part that is proved: in every reachable state some Close
     call can move whenever one has not returned (the lock holder is never blocked), and each
     call takes at most six steps of its own.  _partial: that the scheduler eventually runs the
@@ -135,3 +149,14 @@ Proof. exact d5_monitor_rejects. Qed.
 Example C06_monitor_rejects_d12 :
   existsb (fun ic => Nat.eqb (snd ic) 14) (mon_run 1 (fun _ => true) (trace (init 1 ignore_ctx true true false) d12_schedule)) = true.
 Proof. exact d12_monitor_rejects. Qed.
+
+(** a subscriber whose Close() never returns + a handler that never finishes: both Close calls
+    return the timeout error and Run returns *)
+Example C06_blocked_subscriber_close_example :
+  match replay (init 1 ignore_ctx true true true) blocked_sub_close_schedule with
+  | Some s => returned s 0 RErr && returned s 1 RErr && match run s with RDone => true | _ => false end &&
+              match hc s 0 with HCInSubClose => true | _ => false end &&
+              match mp s 0 with MRunning => true | _ => false end
+  | None => false
+  end = true.
+Proof. exact blocked_sub_close_example. Qed.
